@@ -348,6 +348,11 @@ func fnBitPos(ctx *cmdContext, args map[string]any) (output respValue, err error
 		output.data = wrongTypeError
 		return
 	}
+	if len(strBytes) == 0 {
+		// nothing to search in an empty string
+		output.data = respInt(-1)
+		return
+	}
 
 	// width must be sent to convert index args to bit offsets, and noEnd must be
 	// sent to handle a special case of searching for 0 bit
